@@ -71,6 +71,9 @@ func CSVConsumer(opts ...CSVOpt) Consumer {
 		switch destination := data.(type) {
 		case *csv.Writer:
 			csvWriter := destination
+			if csvWriter == nil {
+				return errors.New("nil destination for CSVConsumer")
+			}
 			o.applyToWriter(csvWriter)
 
 			return pipeCSV(csvWriter, csvReader, o)
@@ -112,6 +115,9 @@ func CSVConsumer(opts ...CSVOpt) Consumer {
 			// support *[][]string, *[]byte, *string
 			if ptr := reflect.TypeOf(data); ptr.Kind() != reflect.Ptr {
 				return errors.New("destination must be a pointer")
+			}
+			if reflect.ValueOf(data).IsNil() {
+				return errors.New("nil destination for CSVConsumer")
 			}
 
 			v := reflect.Indirect(reflect.ValueOf(data))
@@ -209,6 +215,9 @@ func CSVProducer(opts ...CSVOpt) Producer {
 		switch origin := data.(type) {
 		case *csv.Reader:
 			csvReader := origin
+			if csvReader == nil {
+				return errors.New("nil data for CSVProducer")
+			}
 			o.applyToReader(csvReader)
 
 			return pipeCSV(csvWriter, csvReader, o)
@@ -261,6 +270,9 @@ func CSVProducer(opts ...CSVOpt) Producer {
 
 		default:
 			// support [][]string, []byte, string (or pointers to those)
+			if ptr := reflect.ValueOf(data); ptr.Kind() == reflect.Ptr && ptr.IsNil() {
+				return errors.New("nil data for CSVProducer")
+			}
 			v := reflect.Indirect(reflect.ValueOf(data))
 			t := v.Type()
 
